@@ -23,12 +23,19 @@ def StoredAll (H : Bytes → Bytes) (s : Store) : PT → Prop
   | .branch ch => s.get (PT.hash H (.branch ch)) = some (Cbor.encBase (PT.persist H (.branch ch))) ∧ ∀ i, StoredAll H s (ch i)
 
 /-- every byte string the CBOR layer has to write for a node of `t` fits a 64-bit length: values, short keys, and the
-    branch entry of a short child (`32 + 8 + 32` bytes plus the key) -/
+    branch entry of a short child (`32 + 8 + 32` bytes plus the key); and the short keys are nibble lists (what
+    `DeserializeNode` accepts since fix f270208) -/
 def PTSize : PT → Prop
   | .none => True
   | .value v _ => v.length < 2 ^ 64
-  | .short k c => k.length + 72 < 2 ^ 64 ∧ PTSize c
+  | .short k c => k.length + 72 < 2 ^ 64 ∧ isNibbles k = true ∧ PTSize c
   | .branch ch => ∀ i, PTSize (ch i)
+
+theorem PTSize.keysNib : ∀ {t : PT}, PTSize t → KeysNib t
+  | .none, _ => trivial
+  | .value _ _, _ => trivial
+  | .short _ _, h => ⟨h.2.1, PTSize.keysNib h.2.2⟩
+  | .branch _, h => fun i => PTSize.keysNib (h i)
 
 def maxL : List Nat → Nat
   | [] => 0
@@ -109,19 +116,19 @@ theorem StoredAll.get {s : Store} {t : PT} (h : StoredAll H s t) (hn : t.isNone 
   | branch ch => exact h.1
 
 theorem deserializeNode_persist (hlen : ∀ x, (H x).length = 32) (t : PT) (hn : t.isNone = false)
-    (hw : t.weight < 2 ^ 64) : deserializeNode (PT.persist H t) = .ok (PT.loaded H t) := by
+    (hw : t.weight < 2 ^ 64) (hk : KeysNib t) : deserializeNode (PT.persist H t) = .ok (PT.loaded H t) := by
   cases t with
   | none => simp [PT.isNone] at hn
   | value v w => simp [PT.persist, deserializeNode, PT.loaded]
-  | short k c => exact deserializeNode_short H hlen k c hw
-  | branch ch => exact deserializeNode_branch H hlen ch hw
+  | short k c => exact deserializeNode_short H hlen k c hw hk.1
+  | branch ch => exact deserializeNode_branch H hlen ch hw hk
 
 /-- 1. resolving the hash of a stored node loads the clean node -/
 theorem resolve_stored (hlen : ∀ x, (H x).length = 32) (s : Store) (t : PT) (hn : t.isNone = false)
     (hst : StoredAll H s t) (hw : t.weight < 2 ^ 64) (hs : PTSize t) :
     resolveHash true s (PT.hash H t) = .ok (PT.loaded H t) := by
   simp only [resolveHash, Bool.not_true, Bool.false_eq_true, if_false, hst.get H hn,
-    Cbor.decBase_encBase _ (persist_wf H hlen t hw hs), deserializeNode_persist H hlen t hn hw]
+    Cbor.decBase_encBase _ (persist_wf H hlen t hw hs), deserializeNode_persist H hlen t hn hw hs.keysNib]
 
 theorem resolve_stored_value (hlen : ∀ x, (H x).length = 32) (s : Store) (v : Bytes) (w : Nat)
     (hst : StoredAll H s (.value v w)) (hw : w < 2 ^ 64) (hs : v.length < 2 ^ 64) :
@@ -230,7 +237,7 @@ theorem reopen_core (hlen : ∀ x, (H x).length = 32) (s : Store) (t : PT) :
     intro b hst hw hsz h1 h2
     have hw' : c.weight < 2 ^ 64 := hw
     have h2' : b ≤ c.weight := h2
-    obtain ⟨k', v, ho, hrec⟩ := ih b hst.2 hw' hsz.2 h1 h2'
+    obtain ⟨k', v, ho, hrec⟩ := ih b hst.2 hw' hsz.2.2 h1 h2'
     refine ⟨k ++ k', v, by simp [PT.owner, ho, Nat.not_lt.mpr h2'], fun fuel pre hf => ?_⟩
     have R : ∀ f, 2 * c.depth ≤ f →
         (getBlockProof H true s (f + 1) (PT.loaded H (.short k c)) b pre).res =
@@ -289,7 +296,7 @@ theorem reopen_verifies (hlen : ∀ x, (H x).length = 32) (s : Store) (t : PT) (
         .ok (k, (t.proofPairs H b).map Cbor.encBase) ∧
       verifyPairs H ((t.proofPairs H b).map PairD.ok) b = .ok (t.hash H, v) := by
   obtain ⟨k, v, ho, h⟩ := reopen_proof_root H hlen s t b fuel hst hw hsz hb1 hb hf
-  obtain ⟨n, k2, v2, ho2, hv, _, hh, _⟩ := verify_honest H hlen t b [] hb1 hb hw
+  obtain ⟨n, k2, v2, ho2, hv, _, hh, _⟩ := verify_honest H hlen t b [] hb1 hb hw hsz.keysNib
   rw [ho] at ho2
   cases ho2
   refine ⟨k, v, ho, h, ?_⟩
